@@ -103,6 +103,9 @@ func (g *Gen) instr(b *ssa.BasicBlock, ins ssa.Instruction, st *State, r string)
 		g.defVal(x, fmt.Sprintf("(%s_f%d %s)", dt, x.Field, g.val(x.X).T))
 	case *ssa.IndexAddr:
 		idx := g.val(x.Index).T
+		if _, isConst := x.Index.(*ssa.Const); !isConst {
+			g.instIdx = append(g.instIdx, idx)
+		}
 		switch tt := x.X.Type().Underlying().(type) {
 		case *types.Slice:
 			s := g.val(x.X).T
